@@ -19,7 +19,7 @@ RULE = ('case = (1..3 memories with random images, incl. one mapped near 2^32 an
         'per history. distinct_nontrivial = distinct (history hash, fault script, k, port-4 wire hash).')
 ASSUMPTIONS = ['device memory protocol as in the firmware: read reply <=24 data bytes, write 5-byte header',
                'duplicates are drained before a conflicting request is issued (a stale reply may legitimately carry old data)']
-REQUIRED = ['mon.queued_write_pairs_with_the_second_write_below_the_first', 'mon.deck_reads_failing_without_a_failure_callback', 'mon.writes_with_a_progress_callback', 'mon.empty_writes_with_a_progress_callback', 'mon.tester_reads', 'mon.tester_writes', 'mon.tester_writes_crossing_a_256_byte_boundary_with_a_remainder', 'mon.tester_reads_over_a_corrupted_byte',
+REQUIRED = ['mon.requests_issued_while_another_thread_handles_the_loss_of_the_link', 'mon.queued_write_pairs_with_the_second_write_below_the_first', 'mon.deck_reads_failing_without_a_failure_callback', 'mon.writes_with_a_progress_callback', 'mon.empty_writes_with_a_progress_callback', 'mon.tester_reads', 'mon.tester_writes', 'mon.tester_writes_crossing_a_256_byte_boundary_with_a_remainder', 'mon.tester_reads_over_a_corrupted_byte',
             'mon.reads_completed', 'mon.writes_completed', 'mon.failed_notifications', 'mon.images_compared',
             'mon.chunk_requests', 'mon.probe_after_history', 'mon.link_drop_runs', 'mon.error_status_runs',
             'mon.requests_issued_while_no_link_is_open', 'mon.deck_memory_requests_issued_from_a_completion_callback',
@@ -37,11 +37,12 @@ def cases(tier, seed):
     for i in range(n):
         out.append({'seed': seed * 1000003 + i, 'fault': faults[i % len(faults)], 'nmem': rnd.randint(1, 3),
                     'nops': rnd.randint(1, 6), 'sched': rnd.choice(('rtb', 'random', 'random', 'pct')),
-                    'line_p': rnd.choice((0.0, 0.0, 0.03)), 'high': i % 5 == 0, 'many': i % 23 == 7,
+                    'line_p': rnd.choice((0.0, 0.0, 0.03)) if not faults[i % len(faults)].startswith('drop') else rnd.choice((0.0, 0.03, 0.03)), 'high': i % 5 == 0, 'many': i % 23 == 7,
                     'kmax': 6 if tier == 'quick' else 14})
     out += [{'part': 'deck', 'seed': seed * 37 + i, 'n': 40} for i in range(2 if tier == 'quick' else 10)]
     out += [{'part': 'tester', 'seed': seed * 41 + i, 'n': 8} for i in range(16 if tier == 'quick' else 100)]
     out += [{'part': 'dupq', 'seed': seed * 43 + i, 'n': 10} for i in range(16 if tier == 'quick' else 100)]
+    out += [{'part': 'droprace', 'seed': seed * 47 + i} for i in range(160 if tier == 'quick' else 1200)]
     return out
 
 
@@ -224,8 +225,12 @@ def one_run(desc, k, calibrate=False):
         res['probe_expect'] = [(mi, bytes(dev.mems[mi]['data'][:8])) for mi in range(min(3, len(dev.mems)))]
         cf.close_link()
 
+    # statements of the request entry points and of the disconnect handling are pre-empted more often (a request issued by
+    # the application thread at the very moment another thread handles the loss of the link)
     _, abort, s = harness.sched_case(fn, seed=desc['seed'] * 7 + k, policy=desc['sched'], line_p=desc['line_p'],
-                                     horizon=4000.0, max_steps=6_000_000)
+                                     horizon=4000.0, max_steps=6_000_000,
+                                     line_focus=('read', 'write', '_disconnected', '_clear_state', '_link_error_cb'),
+                                     line_focus_p=0.5 if desc['line_p'] > 0 else 0.0)
     res['abort'], res['sched'], res['spec'], res['dev'] = abort, s, spec, dev
     return res
 
@@ -665,6 +670,123 @@ def run_tester(desc, ctx):
     ctx.sample({'tester_ops': [(k, st, ln) for (k, st, ln) in ops][:6], 'corrupted_addresses_in_read_memory': corrupt})
 
 
+def run_droprace(desc, ctx):
+    """The application keeps asking for a memory (requests while one is pending are refused, that is documented) at the very
+    moment another thread handles the loss of the link, under statement-level pre-emption focused on the request entry points
+    and the disconnect handling: every request that was ACCEPTED gets exactly one notification, nothing is left behind, and
+    after a reconnect the memory can be read again."""
+    from vf import detsched as ds, simlink
+    from cflib.crazyflie import Crazyflie
+    from cflib.crazyflie.mem import MemoryElement
+    import threading
+    rnd = random.Random(desc['seed'])
+    size = 0x100
+    mems = [{'type': 0x15, 'size': size, 'len': size, 'origin': 0, 'data': bytes(range(256)).hex()}]
+    prof = gen.profile(desc['seed'], 1, 1, proto=10, mems=mems)
+    dev = simcf.SimCF(prof)
+    spec = simlink.LinkSpec(dev, latency=0.05)          # answers take a while: a request stays pending over many statements
+    spec.fail_reporter = 'driver'
+    uri = 'sim://c06r'
+    simlink.SIMS[uri] = spec
+    spins = rnd.randint(1, 40)
+    use_write = desc['seed'] % 3 == 0
+    ob = {'problems': [], 'accepted': 0, 'refused': 0, 'notes': []}
+
+    def fn(s):
+        dev.now = lambda: s.now
+        cf = Crazyflie()
+        done = ds.Event()
+        cf.connected.add_callback(lambda u: done.set())
+        cf.connection_failed.add_callback(lambda *a: done.set())
+        cf.open_link(uri)
+        if not done.wait(300.0) or len(cf.mem.get_mems(MemoryElement.TYPE_MEMORY_TESTER)) != 1:
+            ob['problems'].append('connect failed or memory not found')
+            return
+        s.sleep(0.3)
+        mem = cf.mem.get_mems(MemoryElement.TYPE_MEMORY_TESTER)[0]
+        notes = ob['notes']
+        cf.mem.mem_read_cb.add_callback(lambda m, a, d: notes.append(('read_ok', a)))
+        cf.mem.mem_read_failed_cb.add_callback(lambda m, a, d: notes.append(('read_fail', a)))
+        cf.mem.mem_write_cb.add_callback(lambda m, a: notes.append(('write_ok', a)))
+        cf.mem.mem_write_failed_cb.add_callback(lambda m, a: notes.append(('write_fail', a)))
+        stop = {'on': False}
+        link1 = cf.link
+
+        def user():
+            import time as _t
+            n = 0
+            while not stop['on'] and n < 400:
+                n += 1
+                if use_write and n % 2 == 0:
+                    r = cf.mem.write(mem, 8, b'\x01\x02\x03')
+                    kind = 'write'
+                else:
+                    r = cf.mem.read(mem, 0, 4)
+                    kind = 'read'
+                if r is not False:
+                    ob['accepted'] += 1
+                    ob.setdefault('accepted_kinds', []).append(kind)
+                else:
+                    ob['refused'] += 1
+                _t.sleep(0)
+
+        def breaker():
+            import time as _t
+            for _ in range(spins):
+                _t.sleep(0)
+            link1._fault()
+        tu, tb = threading.Thread(target=user), threading.Thread(target=breaker)
+        s.pct_rearm(depth=rnd.choice((1, 2)), window=rnd.choice((600, 2500, 5000)))
+        tu.start()
+        tb.start()
+        tb.join()
+        for _ in range(5):
+            import time as _t
+            _t.sleep(0)
+        s.sleep(0.0005)
+        stop['on'] = True
+        tu.join()
+        s.sleep(1.0)
+        ob['state'] = {'reads': dict(cf.mem._read_requests), 'writes': {i: len(v) for i, v in cf.mem._write_requests.items() if v},
+                       'link_none': cf.link is None}
+        ob['n_notes'] = len(notes)
+        # reconnect: the memory can be read again
+        done.clear()
+        cf.open_link(uri)
+        if not done.wait(300.0):
+            ob['problems'].append('reconnect failed')
+            return
+        s.sleep(0.3)
+        m2 = cf.mem.get_mems(MemoryElement.TYPE_MEMORY_TESTER)
+        got = []
+        cf.mem.mem_read_cb.add_callback(lambda m, a, d: got.append(bytes(d)))
+        ob['second_accept'] = bool(m2) and cf.mem.read(m2[0], 0, 4) is not False
+        s.sleep(1.0)
+        ob['second_data'] = got[-1:] if got else []
+        cf.close_link()
+    # two schedules in three are PCT schedules (a thread keeps running until one of a few priority-change points demotes it -
+    # here drawn among the steps of the phase in which the link is lost); every statement of the focus functions is a step
+    pct = desc['seed'] % 3 != 2
+    _, abort, sch = harness.sched_case(fn, seed=desc['seed'], policy='pct' if pct else 'random', line_p=0.02, horizon=3000.0, max_steps=8_000_000,
+                                       line_focus=('read', 'write', '_disconnected', '_clear_state', '_link_error_cb', 'user'),
+                                       line_focus_p=1.0 if pct else 0.45)
+    ctx.evals()
+    rp = dict(desc)
+    if abort is not None or ob['problems'] or sch.deaths:
+        ctx.violate('mem:droprace:hang-or-setup-problem', {'abort': str(abort), 'problems': ob['problems'], 'deaths': [d[1] for d in sch.deaths][:2]}, replay=rp)
+        return
+    ctx.count('mon.requests_issued_while_another_thread_handles_the_loss_of_the_link', ob['accepted'] + ob['refused'])
+    ctx.count('mon.preemption_points_in_request_entry_and_disconnect_handling', sch.focus_points)
+    ctx.nontrivial(('droprace', spins, ob['accepted'], ob['refused'], sch.signature()))
+    info = {'accepted': ob['accepted'], 'refused': ob['refused'], 'notifications': ob['notes'][:ob['n_notes']][:8], 'state_after_the_loss': ob['state']}
+    if ob['n_notes'] != ob['accepted']:
+        ctx.violate('mem:droprace:accepted-requests-and-notifications-differ', info, replay=rp)
+    elif ob['state']['reads'] or ob['state']['writes']:
+        ctx.violate('mem:droprace:pending-record-left-behind', info, replay=rp)
+    elif not ob.get('second_accept') or ob.get('second_data') != [bytes(range(4))]:
+        ctx.violate('mem:droprace:memory-cannot-be-read-after-the-reconnect', dict(info, accepted_again=ob.get('second_accept'), data=[d.hex() for d in ob.get('second_data', [])]), replay=rp)
+
+
 def run_dupq(desc, ctx):
     """Two writes queued back to back on one memory while every write acknowledgement arrives twice (the second copy up to
     a few milliseconds later, i.e. possibly after the next write has been started).  The two writes never share a chunk
@@ -789,6 +911,8 @@ def run(desc, ctx):
     harness.init()
     if desc.get('part') == 'dupq':
         return run_dupq(desc, ctx)
+    if desc.get('part') == 'droprace':
+        return run_droprace(desc, ctx)
     if desc.get('part') == 'tester':
         return run_tester(desc, ctx)
     if desc.get('part') == 'deck':
